@@ -207,10 +207,20 @@ Proof.
     + cbn [exc_eq]. apply np_div_compat; [apply array_dcg_nf|]. rewrite fixed_dcg_nf. reflexivity.
 Qed.
 
+Lemma reindex_item_ranks (f : nat -> Q) cs i : f 0%nat = 0 ->
+  gain_of (map (fun e : Z * nat => (fst e, f (snd e))) cs) i 0 = f (count_of cs i).
+Proof.
+  intro F0. induction cs as [|e cs IH]; cbn; [symmetry; exact F0|].
+  destruct (Z.eqb i (fst e)); [reflexivity|exact IH].
+Qed.
+
 Lemma pop_gen counts k recs t :
   pop_measure_list k (pop_item_ranks counts) recs t = pop_model counts k recs t.
 Proof.
   unfold pop_measure_list, pop_model.
   rewrite truncate_nf, with_topk_nf. destruct (trunc_ok k recs); [|reflexivity].
-  unfold il_len. cbn [trunc_il il_ids]. reflexivity.
+  unfold il_len. cbn [trunc_il il_ids].
+  destruct (Nat.eqb (length (topk k (il_ids recs))) 0); [reflexivity|].
+  unfold ser_reindex, pop_item_ranks, item_quantile. do 2 f_equal. apply map_ext. intro i.
+  apply (reindex_item_ranks (quantile counts)). reflexivity.
 Qed.
